@@ -2,7 +2,7 @@
    behaviour; bit 1 = the observed behaviour contradicts the property (Run/C06Ref.v: Spec/DataSpec and the
    reference arithmetic only -- never the hand model, never Gen). *)
 From Coq Require Import String List ZArith NArith Bool.
-From Verif Require Import Base.Res Gen.GenGetAsInt Gen.GenMeta Model.Directives Spec.DataSpec Run.Show Run.C06Ref.
+From Verif Require Import Base.Res Gen.GenGetAsInt Gen.GenMeta Model.Directives Model.DirectivesSeq Spec.DataSpec Spec.DataBlockSpec Run.Show Run.C06Ref.
 Import ListNotations.
 Open Scope string_scope.
 Open Scope list_scope.
@@ -83,6 +83,39 @@ Definition corr_class (spaces : list N) (lowers : list (N * N)) : bool :=
   forallb (fun c => Bool.eqb (py_space c) (existsb (N.eqb c) spaces) && opt_eqb N.eqb (esc_class c) (lookup_n c lowers))
           (map N.of_nat (seq 0 (N.to_nat 12400%N))).
 
+(* literal operands and sequences *)
+Definition operand_of (o : roperand) : operand := match o with RVal v => OVal v | RLit cs => OLit (ns cs) end.
+Definition xdir_of (d : rdirl) : xdirective :=
+  match d with RPlain d => XD (dir_of d) | RLitDir name ops => XLit name (map operand_of ops) end.
+Definition xitem_of (it : ritem) : xitem :=
+  match it with ROne d => XOne (xdir_of d) | RRepeat n body => XRepeat n (map xdir_of body) end.
+
+Definition corr_out (m : out) (o : dir_obs) : bool :=
+  match m, o with
+  | Out ds bs, ROut ds' bs' => diags_eqb ds ds' && zs_eqb bs bs'
+  | Raised ds, RRaised ds' => diags_eqb ds ds'
+  | Out ds _, RFailed ds' => m_has_error ds && diags_eqb ds ds'
+  | Raised ds, RFailed ds' => diags_eqb ds ds'
+  | Crashed _, RCrash => true
+  | _, _ => false
+  end.
+
+Definition corr_dirl (enc : list N -> option (list Z)) (name : string) (ops : list operand) (addr : Z)
+           (ann : option (option Z)) (o : dir_obs) : bool :=
+  match ann with Some a => optz_eqb (announcedx enc (XLit name ops)) a | None => true end &&
+  corr_out (emit_lit enc name ops addr) o.
+
+(* a whole program: the image when nothing is refused, else the fact of the refusal (the order in which
+   eagerly and lazily evaluated statements report is not compared) *)
+Definition corr_items (enc : list N -> option (list Z)) (its : list xitem) (addr : Z) (o : dir_obs) : bool :=
+  match fst (items_run enc its addr), o with
+  | Out ds bs, ROut ds' bs' => negb (m_has_error ds) && negb (has_error ds') && zs_eqb bs bs'
+  | Out ds _, RFailed ds' => m_has_error ds && has_error ds'
+  | Raised ds, RFailed ds' => m_has_error ds && has_error ds'
+  | Crashed _, RCrash => true
+  | _, _ => false
+  end.
+
 Definition corr_case (c : case) : bool :=
   match c with
   | CGai b u d v o => corr_gai b u d v o
@@ -90,6 +123,9 @@ Definition corr_case (c : case) : bool :=
   | CDir bk d addr oracle ann o => corr_dir (if bk then bk_enc else oracle_of oracle) (dir_of d) addr ann o
   | CScan q text _ o => corr_scan (Z.to_N q) (ns text) o
   | CClass spaces lowers => corr_class (ns spaces) (map (fun kv => (Z.to_N (fst kv), Z.to_N (snd kv))) lowers)
+  | CDirL bk name ops addr oracle ann o =>
+      corr_dirl (if bk then bk_enc else oracle_of oracle) name (map operand_of ops) addr ann o
+  | CItems bk its addr oracle o => corr_items (if bk then bk_enc else oracle_of oracle) (map xitem_of its) addr o
   end.
 
 Definition judge (c : case) : N := code_of (corr_case c) (prop_case c).
